@@ -694,8 +694,8 @@ func (ex *Exec) doCall(fr *frame, st *State, cc *ssa.CallCommon, fnv Val, args [
 				}
 			}
 		}
-		if callee == nil && cc.Value != nil && !cc.IsInvoke() {
-			// calling a nil function value panics
+		if callee == nil && cc.Value != nil && !cc.IsInvoke() && ex.topC != nil && ex.topC.NilCalls {
+			// calling a nil function value panics (checked where the contract asks for it: `nilcalls`)
 			if fv, ok := st.vals[cc.Value]; ok {
 				if ft, isTerm := fv.(*Term); isTerm && ft.Sort.Kind == SInt {
 					ex.oblige(st, "nopanic.nilfunc", "call of a nil function value", ex.p.Not(ex.p.Eq(ft, ex.p.Int(0))), pos)
